@@ -61,6 +61,13 @@ type Contract struct {
 	Ghost         map[string]string
 }
 
+// onlyLoopInvs: the contract says nothing about calls (no pre/postconditions, frame or flags): it only carries loop
+// invariants for when the function is inlined (deferred closures)
+func (c *Contract) onlyLoopInvs() bool {
+	return len(c.Requires) == 0 && len(c.Scope) == 0 && len(c.Ensures) == 0 && len(c.Checks) == 0 && len(c.Names) == 0 &&
+		!c.HasAssigns && !c.Arith && !c.Counted && !c.Trusted && !c.Deterministic && len(c.LoopInv) > 0
+}
+
 type Lemma struct {
 	Name string
 	Pkg  string
@@ -81,6 +88,11 @@ type Monitor struct {
 	Lock       string   // field name of the mutex
 	Protects   []string // field names
 	InsertOnly []string // protected map fields whose entries are never overwritten or deleted
+	Types      []string // struct types (pkg.T) whose cells are reachable only through the protected fields: unknown after re-acquisition
+	Conds      []string // T.field of condition variables whose L is this mutex
+	InvVar     string
+	Invs       []*Expr // monitor invariants: hold whenever the lock is free (assumed at Lock, proved at Unlock / Wait)
+	Pkg        string
 }
 
 // ChanInv: every value sent on the channel held in field Field of type TypeName satisfies Body (checked at sends,
@@ -107,7 +119,7 @@ type ContractSet struct {
 }
 
 var clauseKeywords = map[string]bool{"func": true, "interface": true, "spec": true, "abstract": true, "requires": true, "ensures": true,
-	"assigns": true, "loop": true, "decreases": true, "arith": true, "pure": true, "lemma": true, "trusted": true, "noframe": true, "invariant": true, "nonnil": true, "names": true, "ospec": true, "checks": true, "counted": true, "axiom": true, "monitor": true, "scope": true, "deterministic": true, "framecaller": true, "chaninvariant": true}
+	"assigns": true, "loop": true, "decreases": true, "arith": true, "pure": true, "lemma": true, "trusted": true, "noframe": true, "invariant": true, "nonnil": true, "names": true, "ospec": true, "checks": true, "counted": true, "axiom": true, "monitor": true, "scope": true, "deterministic": true, "framecaller": true, "chaninvariant": true, "monitorinvariant": true}
 
 func loadContracts(files []string) (*ContractSet, error) {
 	cs := &ContractSet{funcs: map[string]*Contract{}, ifaces: map[string]*Contract{}, specs: map[string]*specFn{}, invs: map[string][]*TypeInv{}, nonnil: map[string]bool{}}
@@ -210,6 +222,33 @@ func (cs *ContractSet) loadFile(path string) error {
 			ti := &TypeInv{TypeName: strings.TrimSpace(rest[:lp]), Var: strings.TrimSpace(rest[lp+1 : rp]), Body: ex, Pkg: pkg}
 			cs.invs[pkg+"."+ti.TypeName] = append(cs.invs[pkg+"."+ti.TypeName], ti)
 			cur = nil
+		case "monitorinvariant":
+			// monitorinvariant T.lock(x): expr
+			lp, rp := strings.Index(rest, "("), strings.Index(rest, ")")
+			col := -1
+			if rp > 0 {
+				col = rp + strings.Index(rest[rp:], ":")
+			}
+			if lp < 0 || rp < lp || col < rp || !strings.Contains(rest[:lp], ".") {
+				return fail(fmt.Errorf("expected: monitorinvariant T.lock(x): expr"))
+			}
+			ex, err := parseExpr(rest[col+1:])
+			if err != nil {
+				return fail(err)
+			}
+			tf := strings.SplitN(strings.TrimSpace(rest[:lp]), ".", 2)
+			found := false
+			for _, m := range cs.monitors {
+				if m.TypeName == pkg+"."+tf[0] && m.Lock == tf[1] {
+					m.InvVar = strings.TrimSpace(rest[lp+1 : rp])
+					m.Invs = append(m.Invs, ex)
+					found = true
+				}
+			}
+			if !found {
+				return fail(fmt.Errorf("monitorinvariant: no monitor declared for %s", rest[:lp]))
+			}
+			cur = nil
 		case "chaninvariant":
 			// chaninvariant T.field(v): expr
 			lp, rp := strings.Index(rest, "("), strings.Index(rest, ")")
@@ -234,17 +273,29 @@ func (cs *ContractSet) loadFile(path string) error {
 				return fail(fmt.Errorf("expected: monitor T.lock protects f1, f2 [insert-only f]"))
 			}
 			tl := strings.SplitN(f[0], ".", 2)
-			mon := &Monitor{TypeName: pkg + "." + tl[0], Lock: tl[1]}
+			mon := &Monitor{TypeName: pkg + "." + tl[0], Lock: tl[1], Pkg: pkg}
 			mode := "p"
 			for _, w := range f[2:] {
-				if w == "insert-only" {
+				switch w {
+				case "insert-only":
 					mode = "i"
 					continue
+				case "types":
+					mode = "t"
+					continue
+				case "conds":
+					mode = "c"
+					continue
 				}
-				if mode == "p" {
+				switch mode {
+				case "p":
 					mon.Protects = append(mon.Protects, w)
-				} else {
+				case "i":
 					mon.InsertOnly = append(mon.InsertOnly, w)
+				case "t":
+					mon.Types = append(mon.Types, pkg+"."+w)
+				case "c":
+					mon.Conds = append(mon.Conds, pkg+"."+w)
 				}
 			}
 			cs.monitors = append(cs.monitors, mon)
